@@ -1,7 +1,9 @@
 """SpmcB — step-level (B) model of fibre's broadcast SPMC channel
 (channels/src/spmc/ring_buffer.rs, spmc/mod.rs, internal/left_right.rs; sync handles).
 Model: lean/Fv/Chan/SpmcB.lean + lean/Fv/Chan/LeftRightB.lean (one visible action per step, the
-non-atomic slot write / payload clone / list mutations as separate silent steps); theorems:
+non-atomic slot write / list mutations as separate silent steps; the payload clone steps `rVal` / `bVals` are
+matched against the logged `A <tid> clone v<id>` lines of the harness — `V::clone` is a scheduling point —
+in trace order, so a cursor store that precedes its copy-out is a MISMATCH); theorems:
 Fv.Props.SpmcB (+ lemmas Fv.Lemmas.SpmcB*); tie: T1 — the real code runs under the scheduler shim
 (`--cfg loom`), `chanh --atomics` logs every visible action, `fvdrv_spmcb` replays each action as THE
 enabled step of the model thread (kind, object role from the creation-order layout + calibration,
